@@ -140,6 +140,38 @@ def gen():
     if not re.search(r"grammar\.set_connect_cost\(left,\s*right,\s*Grammar::INHIBITED_CONNECTION\)", ib):
         raise F.FactError("inhibit_connection no longer calls set_connect_cost(left, right, INHIBITED_CONNECTION)")
     out.append("Definition INHIBITED_CONNECTION : Z := %s.\n" % F.coq_int(F.find_const("sudachi/src/dic/grammar.rs", "INHIBITED_CONNECTION"), "Z"))
+    # ---- util/user_pos.rs: the mode a provider gets when its settings do not mention userPOS (Default of UserPosMode),
+    # read from a manual `impl Default` or from `#[derive(Default)]` + `#[default]` on a variant
+    rel = "sudachi/src/util/user_pos.rs"
+    t = F.strip_comments(F.src(rel))
+    me = re.search(r"((?:#\[[^\]]*\]\s*)*)pub\s+enum\s+UserPosMode\s*\{(.*?)\}", t, flags=re.S)
+    if not me:
+        raise F.FactError("enum UserPosMode not found in %s" % rel)
+    variants = re.findall(r"((?:#\[[^\]]*\]\s*)*)([A-Z][A-Za-z]*)\s*,", me.group(2))
+    if sorted(v for _, v in variants) != ["Allow", "Forbid"]:
+        raise F.FactError("UserPosMode no longer has exactly the variants Allow and Forbid")
+    manual = re.search(r"impl\s+Default\s+for\s+UserPosMode\s*\{\s*fn\s+default\(\)\s*->\s*Self\s*\{\s*(?:UserPosMode|Self)::([A-Za-z]+)\s*\}\s*\}", t)
+    derived = re.search(r"derive\([^)]*\bDefault\b[^)]*\)", me.group(1)) is not None
+    marked = [v for attrs, v in variants if re.search(r"#\[default\]", attrs)]
+    if manual and not derived and not marked:
+        dflt = manual.group(1)
+    elif derived and not manual and len(marked) == 1:
+        dflt = marked[0]
+    else:
+        raise F.FactError("Default of UserPosMode: neither a manual impl nor derive(Default) + one #[default] variant")
+    if dflt not in ("Allow", "Forbid"):
+        raise F.FactError("Default of UserPosMode is the unknown variant %s" % dflt)
+    out.append("(* UserPosMode::default(): what a provider gets when its settings do not mention userPOS *)\nDefinition user_pos_default_allow : bool := %s.\n" % ("true" if dflt == "Allow" else "false"))
+    if not re.search(r"#\[serde\(rename_all\s*=\s*\"lowercase\"\)\]", me.group(1)):
+        raise F.FactError("UserPosMode is no longer #[serde(rename_all = \"lowercase\")]")
+    opt = []
+    for mod, struct in (("simple_oov", "PluginSettings"), ("regex_oov", "RegexProviderConfig"), ("mecab_oov", "PluginSettings")):
+        tt = F.strip_comments(F.src("sudachi/src/plugin/oov/%s/mod.rs" % mod))
+        ms = re.search(r"struct\s+%s\s*\{(.*?)\n\}" % struct, tt, flags=re.S)
+        if not ms:
+            raise F.FactError("struct %s not found in %s" % (struct, mod))
+        opt.append(re.search(r"#\[serde\(default\)\]\s*userPOS:\s*UserPosMode\s*,", ms.group(1)) is not None)
+    out.append("(* userPOS is `#[serde(default)] userPOS: UserPosMode` in the settings of SimpleOov / RegexOov / MeCabOov *)\nDefinition user_pos_key_optional : bool := %s.\n" % ("true" if all(opt) else "false"))
     # ---- register_pos limit
     rel = "sudachi/src/dic/grammar.rs"
     t = F.strip_comments(F.src(rel))
